@@ -7,6 +7,7 @@ import (
 	"os/exec"
 	"path/filepath"
 	"strings"
+	"sync"
 	"time"
 	"unicode/utf16"
 
@@ -110,6 +111,10 @@ type traceRec struct {
 // observe runs call with a fresh event channel and a consumer goroutine; returns the channel trace, the kind of
 // outcome (value | error | escaped), the panic text and whether the consumer saw the close.
 func observe(call func(ch *chan events.Event) (string, error)) (tr traceRec, kind string, out string, errText string) {
+	return observeSlow(0, call)
+}
+
+func observeSlow(delay time.Duration, call func(ch *chan events.Event) (string, error)) (tr traceRec, kind string, out string, errText string) {
 	ch := make(chan events.Event)
 	done := make(chan traceRec, 1)
 	go func() {
@@ -117,6 +122,9 @@ func observe(call func(ch *chan events.Event) (string, error)) (tr traceRec, kin
 		timer := time.NewTimer(20 * time.Second)
 		defer timer.Stop()
 		for {
+			if delay > 0 {
+				time.Sleep(delay)
+			}
 			select {
 			case ev, ok := <-ch:
 				if !ok {
@@ -209,6 +217,7 @@ type pipeCase struct {
 	entry string
 	p     pvariant
 	d     dvariant
+	slow  time.Duration // the consumer waits this long before taking each event (a slow listener is a legal schedule)
 }
 
 func (c pipeCase) faults() []string {
@@ -227,9 +236,16 @@ func (c pipeCase) faults() []string {
 
 // runPipeCase executes one (entry point, profile, data) with a recording consumer and compares with the model.
 func runPipeCase(e *core.Env, c pipeCase, compiled map[string]*rego.PreparedEvalQuery) (tr traceRec, kind string, out string) {
-	res := e.Res
+	tr, kind, out, errText := observeCase(c, compiled)
+	comparePipeCase(e, c, tr, kind, errText)
+	return
+}
+
+func observeCase(c pipeCase, compiled map[string]*rego.PreparedEvalQuery) (tr traceRec, kind string, out string, errText string) {
 	rc := config.DefaultReportConfiguration()
-	var errText string
+	observe := func(call func(ch *chan events.Event) (string, error)) (traceRec, string, string, string) {
+		return observeSlow(c.slow, call)
+	}
 	switch c.entry {
 	case "validate":
 		if len(c.p.name)%2 == 0 {
@@ -267,10 +283,20 @@ func runPipeCase(e *core.Env, c pipeCase, compiled map[string]*rego.PreparedEval
 			return pkg.ValidateCompiledWithConfiguration(q, c.d.text, false, ch, clockA, rc)
 		})
 	}
+	return
+}
+
+func comparePipeCase(e *core.Env, c pipeCase, tr traceRec, kind string, errText string) {
+	res := e.Res
 	acts := tr.acts
 	ans, err := e.Driver.Eval(sx.L(sx.A("c11"), sx.A("run"), sx.A(c.entry), atoms(c.faults()), atoms(acts), sx.A(map[string]string{"value": "value", "error": "error", "escaped": "escaped", "blocked": "escaped"}[kind])))
 	replay := map[string]any{"entry_point": c.entry, "profile": c.p.text, "profile_variant": c.p.name, "data": c.d.text, "data_variant": c.d.name,
 		"expected_stage_outcomes(parse,generate,compile,decode,normalize,eval,build)": c.faults(), "impl_channel_trace": acts, "impl_outcome": kind, "impl_error": core.Trunc(errText, 400)}
+	slowNote := ""
+	if c.slow > 0 {
+		replay["consumer"] = fmt.Sprintf("waits %v before taking each event from the channel", c.slow)
+		slowNote = ", slow consumer"
+	}
 	if err != nil {
 		replay["no_failing_input_found"] = true
 		replay["broken"] = "driver: " + err.Error()
@@ -288,11 +314,11 @@ func runPipeCase(e *core.Env, c pipeCase, compiled map[string]*rego.PreparedEval
 		} else if kind == "blocked" {
 			what = "the entry point blocked"
 		}
-		res.Violate("impl-violates-property", what+" ("+c.entry+", profile "+c.p.name+", data "+c.d.name+")", replay)
+		res.Violate("impl-violates-property", what+" ("+c.entry+", profile "+c.p.name+", data "+c.d.name+slowNote+")", replay)
 	} else if implTrace != modelTrace || kind != modelKind {
 		replay["no_failing_input_found"] = true
 		replay["broken"] = "correspondence Pipeline.run_entry vs the entry point (the trace satisfies the protocol but differs from the model for the expected stage outcomes)"
-		res.Violate("model-mismatch", "channel trace / outcome differs from the model ("+c.entry+", profile "+c.p.name+", data "+c.d.name+")", replay)
+		res.Violate("model-mismatch", "channel trace / outcome differs from the model ("+c.entry+", profile "+c.p.name+", data "+c.d.name+slowNote+")", replay)
 	}
 	return
 }
@@ -301,12 +327,12 @@ func allPipeCases(compiledOK func(string) bool) []pipeCase {
 	cases := []pipeCase{}
 	for _, p := range profileVariants {
 		for _, d := range dataVariants {
-			cases = append(cases, pipeCase{"validate", p, d}, pipeCase{"compileThenValidate", p, d})
+			cases = append(cases, pipeCase{"validate", p, d, 0}, pipeCase{"compileThenValidate", p, d, 0})
 			if compiledOK(p.name) {
-				cases = append(cases, pipeCase{"validateCompiled", p, d})
+				cases = append(cases, pipeCase{"validateCompiled", p, d, 0})
 			}
 		}
-		cases = append(cases, pipeCase{"compileProfile", p, dataVariants[0]})
+		cases = append(cases, pipeCase{"compileProfile", p, dataVariants[0], 0})
 	}
 	return cases
 }
@@ -330,7 +356,7 @@ func compilePool(res *core.Result) map[string]*rego.PreparedEvalQuery {
 
 func C11(e *core.Env) {
 	res := e.Res
-	res.Rule = "cases = (entry point, profile variant, data variant): every failure point reachable by input (YAML error, structural error, parser panic, generator panic, Rego compile error, deny-listed built-in, decode error, JSON-LD rejection, lexical index panic, evaluation error) and success x Validate / ValidateWithConfiguration / ValidateCompiled(WithConfiguration) / CompileProfile / CompileProfile-then-ValidateCompiled on one channel, each with a recording consumer goroutine (events, close, double close, missing close); exhaustive over the pools; " +
+	res.Rule = "cases = (entry point, profile variant, data variant): every failure point reachable by input (YAML error, structural error, parser panic, generator panic, Rego compile error, deny-listed built-in, decode error, JSON-LD rejection, lexical index panic, evaluation error) and success x Validate / ValidateWithConfiguration / ValidateCompiled(WithConfiguration) / CompileProfile / CompileProfile-then-ValidateCompiled on one channel, each with a recording consumer goroutine (events, close, double close, missing close); exhaustive over the pools; plus 19 runs with a listener that waits 260 ms (quick) / 700 ms (thorough) before taking each event; " +
 		"the trace must equal the model's trace for the stage outcomes the inputs were built to produce and satisfy the executable protocol specification; milestones consumer on the same runs; non-trivial = some stage fails; distinct by (entry, profile, data)"
 	compiled := compilePool(res)
 	cases := allPipeCases(func(n string) bool { return compiled[n] != nil })
@@ -373,6 +399,43 @@ func C11(e *core.Env) {
 			res.Violate("impl-violates-property", "milestones are not one per completed stage", map[string]any{"trace": tr.acts, "milestones": got, "completed_stages": want,
 				"entry_point": c.entry, "profile": c.p.text, "data": c.d.text})
 		}
+	}
+	// slow listeners: the same protocol must hold when the consumer takes its time over every event (the sends are
+	// synchronous, so nothing may be dropped, reordered or left unsent); observed concurrently, compared in order
+	slowCases := []pipeCase{}
+	for _, en := range []string{"validate", "validateCompiled", "compileProfile", "compileThenValidate"} {
+		for _, pd := range [][2]string{{"ok-min", "good"}, {"ok-levels", "bad"}, {"broken-rego", "good"}, {"ok-min", "garbage"}, {"eval-error", "bad"}} {
+			if en == "validateCompiled" && compiled[pd[0]] == nil {
+				continue
+			}
+			var dd dvariant
+			for _, d := range dataVariants {
+				if d.name == pd[1] {
+					dd = d
+				}
+			}
+			slowCases = append(slowCases, pipeCase{en, pv(pd[0]), dd, time.Duration(e.Pick(260, 700)) * time.Millisecond})
+		}
+	}
+	type slowObs struct {
+		tr            traceRec
+		kind, errText string
+	}
+	obs := make([]slowObs, len(slowCases))
+	var wg sync.WaitGroup
+	for i := range slowCases {
+		wg.Add(1)
+		go func(i int) {
+			defer wg.Done()
+			tr, kind, _, errText := observeCase(slowCases[i], compiled)
+			obs[i] = slowObs{tr, kind, errText}
+		}(i)
+	}
+	wg.Wait()
+	for i, c := range slowCases {
+		comparePipeCase(e, c, obs[i].tr, obs[i].kind, obs[i].errText)
+		res.Case("slow|"+c.entry+"|"+c.p.name+"|"+c.d.name, true)
+		res.Count("consumer=slow")
 	}
 	res.Exhaustive = true
 }
